@@ -6,6 +6,9 @@
 package verifrt
 
 import (
+	"archive/zip"
+	"io"
+	"os"
 	"reflect"
 	"sort"
 	"sync"
@@ -236,4 +239,109 @@ func (m *Mutex) TryLock() bool {
 	m.st.take(true)
 	m.mu.Lock()
 	return true
+}
+
+// ---- file-system seam -----------------------------------------------------------
+//
+// In the instrumented copy every os.Create / OpenFile / Open / Rename / MkdirAll /
+// ReadFile / WriteFile / Remove of the library goes through these wrappers. The
+// simulator makes each call a scheduler yield point (so that two tasks can
+// interleave INSIDE Save or Open, at the points where the real world can
+// interleave them) and may make a call fail (a failing system call injected at a
+// chosen position). With no hooks installed they are the plain os calls.
+
+// IOHook is called before every file-system call (kind, path).
+var IOHook func(kind, path string)
+
+// IOFault may return an error that the call then returns without touching the file system.
+var IOFault func(kind, path string) error
+
+func ioPoint(kind, path string) error {
+	if h := IOHook; h != nil {
+		h(kind, path)
+	}
+	if f := IOFault; f != nil {
+		return f(kind, path)
+	}
+	return nil
+}
+
+func OsCreate(name string) (*os.File, error) {
+	if err := ioPoint("create", name); err != nil {
+		return nil, &os.PathError{Op: "open", Path: name, Err: err}
+	}
+	return os.Create(name)
+}
+
+func OsOpenFile(name string, flag int, perm os.FileMode) (*os.File, error) {
+	if err := ioPoint("openfile", name); err != nil {
+		return nil, &os.PathError{Op: "open", Path: name, Err: err}
+	}
+	return os.OpenFile(name, flag, perm)
+}
+
+func OsOpen(name string) (*os.File, error) {
+	if err := ioPoint("open", name); err != nil {
+		return nil, &os.PathError{Op: "open", Path: name, Err: err}
+	}
+	return os.Open(name)
+}
+
+func OsRename(oldpath, newpath string) error {
+	if err := ioPoint("rename", newpath); err != nil {
+		return &os.LinkError{Op: "rename", Old: oldpath, New: newpath, Err: err}
+	}
+	return os.Rename(oldpath, newpath)
+}
+
+func OsMkdirAll(path string, perm os.FileMode) error {
+	if err := ioPoint("mkdirall", path); err != nil {
+		return &os.PathError{Op: "mkdir", Path: path, Err: err}
+	}
+	return os.MkdirAll(path, perm)
+}
+
+func OsReadFile(name string) ([]byte, error) {
+	if err := ioPoint("readfile", name); err != nil {
+		return nil, &os.PathError{Op: "open", Path: name, Err: err}
+	}
+	return os.ReadFile(name)
+}
+
+func OsWriteFile(name string, data []byte, perm os.FileMode) error {
+	if err := ioPoint("writefile", name); err != nil {
+		return &os.PathError{Op: "open", Path: name, Err: err}
+	}
+	return os.WriteFile(name, data, perm)
+}
+
+func OsRemove(name string) error {
+	if err := ioPoint("remove", name); err != nil {
+		return &os.PathError{Op: "remove", Path: name, Err: err}
+	}
+	return os.Remove(name)
+}
+
+// ZIP entry boundaries (yield points; a fault here is an error of the underlying writer in the real world,
+// which the byte-level faults of the disk model cover, so none is injected).
+
+func ZipCreate(zw *zip.Writer, name string) (io.Writer, error) {
+	if h := IOHook; h != nil {
+		h("zip-create", name)
+	}
+	return zw.Create(name)
+}
+
+func ZipCreateHeader(zw *zip.Writer, fh *zip.FileHeader) (io.Writer, error) {
+	if h := IOHook; h != nil {
+		h("zip-create", fh.Name)
+	}
+	return zw.CreateHeader(fh)
+}
+
+func ZipClose(zw *zip.Writer) error {
+	if h := IOHook; h != nil {
+		h("zip-close", "")
+	}
+	return zw.Close()
 }
